@@ -515,8 +515,10 @@ def rule_concat(ctx) -> RuleResult:
         loaded[f"notnone:{sn}.{a}"] = True
         loaded[f"truthy:{sn}.{a}"] = True
 
-    def every_path(kind, pred):
-        return g.exit not in F.reach([g.entry], ent, KindFacts(p, p.cls(kind), loaded), avoid=pred)
+    def every_path(kind, pred, extra=None, pred_env=None):
+        facts = dict(loaded)
+        facts.update(extra or {})
+        return g.exit not in F.reach([g.entry], ent, KindFacts(p, p.cls(kind), facts), avoid=pred, avoid_env=pred_env)
 
     def removes_from(n, what):
         """`<what>.remove(..)` / `.pop(..)` / `del <what>[..]` / a re-binding of `<what>` (filtered copy), `what` compared through aliases"""
@@ -578,6 +580,50 @@ def rule_concat(ctx) -> RuleResult:
                        "a path leaves the removed entity's key in attributes_keys: its record is still found by get_concatenated_attributes"))
         checks.append((K, "its record removed from concatenated_attributes['Attributes']", lambda n: removes_from(n, attributes_list),
                        "a path leaves the removed entity's record in the concatenated attributes written to file"))
+    # the arrays an object writes about ITSELF when it is saved (add_save_concatenated: update_array_attribute(child, "<field>")) are
+    # removed with it (update_array_attribute(entity, "<field>", remove=True)), under the same hasattr guards
+    wr = sem_view(ctx, "Concatenator.add_save_concatenated")
+    wchild = param(wr, 0)
+    W = Fx(wr)
+    own_fields = {}
+    for n in W.g.nodes:
+        for c in W.calls(n):
+            if isinstance(c.func, ast.Attribute) and c.func.attr == "update_array_attribute" and len(c.args) >= 2 and not kw_true(c, "remove") and W.xt(c.args[0]) == wchild:
+                fld = W.x(c.args[1])
+                if isinstance(fld, ast.Constant) and isinstance(fld.value, str):
+                    # hasattr tests whose outcome is fixed on every path to this call
+                    guards = {}
+                    for t in W.g.nodes:
+                        if t.kind != "test":
+                            continue
+                        tt = W.test(t)
+                        if isinstance(tt, ast.Call) and name_of(tt.func) == "hasattr" and len(tt.args) == 2 and W.xt(tt.args[0]) == wchild and isinstance(tt.args[1], ast.Constant):
+                            for lab, val in (("true", True), ("false", False)):
+                                cut = [m for m, l in t.succ if l == lab]
+                                if cut and n not in W.reach([W.g.entry], avoid=lambda x, cut=cut, t=t: x in cut and all(p_ is t for p_, _ in x.pred)):
+                                    guards["hasattr:" + str(tt.args[1].value)] = val
+                    own_fields[fld.value] = guards
+    for fld, guards in sorted(own_fields.items()):
+        extra = dict(guards)
+        extra.setdefault("hasattr:" + fld, True)
+        extra.setdefault("hasattr:_" + fld, True)
+
+        def removes_field(n, env, fld=fld):
+            for c in F.calls(n):
+                if isinstance(c.func, ast.Attribute) and c.func.attr == "update_array_attribute" and kw_true(c, "remove") and len(c.args) >= 2 and F.xt(c.args[0]) == ent:
+                    a = F.x(c.args[1])
+                    v = a.value if isinstance(a, ast.Constant) else env.get(a.id) if isinstance(a, ast.Name) else None
+                    if v == fld:
+                        return True
+            return False
+
+        ok = every_path("ConcatenatedObject", lambda n: False, extra, removes_field)
+        res.inst(f"remove_entity, ConcatenatedObject: the rows of its own '{fld}' array removed on every normal path", nontrivial=True, ok=ok)
+        if not ok:
+            res.find("Concatenator", "remove_entity", f"ConcatenatedObject: a path without its own '{fld}' rows removed", fn.where,
+                     f"add_save_concatenated writes the object's '{fld}' array into the concatenated data and index (update_array_attribute(child, '{fld}')); "
+                     f"remove_entity never removes those rows (update_array_attribute(entity, '{fld}', remove=True)): the removed object's rows stay in the group's "
+                     "arrays on file")
     for K, what, pred, msg in checks:
         present = any(pred(n) for n in g.nodes)
         ok = present and every_path(K, pred)
@@ -679,6 +725,29 @@ def _returned_constants(p, fn, e, const_values):
     return out or None
 
 
+class _AnyName:
+    def __contains__(self, x):
+        return isinstance(x, str)
+
+
+def _kind_constants(ctx, fn, arg):
+    """Names a kind -> container function can return for the entity kinds, when it is not a plain chain of constant returns (a loop
+    over a table, a delegation to another function): evaluated per kind as C05.FILE does; None when it cannot be told."""
+    from ._c05_sem import _delegate
+
+    F = Fx(fn)
+    call = F.x(arg)
+    if not isinstance(call, ast.Call) or len(call.args) != 1 or not isinstance(call.args[0], ast.Name):
+        return None
+    d = _delegate(ctx.p, fn, F, call, call.args[0].id)
+    if d is None:
+        return None
+    out = set()
+    for k in ("Data", "Group", "ObjectBase"):
+        out |= containers_of_kind(ctx.p, sem_view(ctx, d[0]), d[1], ctx.p.cls(k), universe=_AnyName(), ctx=ctx, _depth=1)
+    return out or None
+
+
 def rule_sweep(ctx) -> RuleResult:
     res = RuleResult(
         "C05.SWEEP",
@@ -767,6 +836,8 @@ def rule_sweep(ctx) -> RuleResult:
             vals = const_values(arg, fn.node)
             if vals is None:
                 vals = _returned_constants(p, fn, arg, const_values)
+            if vals is None:
+                vals = _kind_constants(ctx, fn, arg)
             if vals is not None:
                 bad = sorted(str(v) for v in vals if v not in layout)
                 res.inst(f"{owner}.{fn.name}:{c.lineno} removes from {sorted(map(str, vals))}", nontrivial=True, ok=not bad)
@@ -789,4 +860,439 @@ def rule_sweep(ctx) -> RuleResult:
     return res
 
 
-RULES = [rule_guard, rule_itermut, rule_sibling, rule_scrub, rule_file, rule_oneshot, rule_concat, rule_sweep]
+# --------------------------------------------------------------------------------------------------------------------------
+# C05.ALIAS — the `children` property hands out the list self._children BY REFERENCE, so the request of
+# `x.remove_children(x.children)` IS that list.  An implementation that edits self._children in place must work on a
+# snapshot of the request taken before the first edit: iterating the request skips every other child, and handing it
+# on afterwards (workspace.remove_children) unlinks on file what is left, not what was removed.
+_FRESH_CALLS = ("list", "tuple", "sorted", "set", "frozenset", "copy", "deepcopy", "reversed", "filter", "map")
+
+
+def _may_be_same_list(expr, names) -> bool:
+    """can `expr` evaluate to the very list object one of `names` holds (no copy in between)?"""
+    if isinstance(expr, ast.Name):
+        return expr.id in names
+    if isinstance(expr, ast.IfExp):
+        return _may_be_same_list(expr.body, names) or _may_be_same_list(expr.orelse, names)
+    if isinstance(expr, ast.BoolOp):
+        return any(_may_be_same_list(v, names) for v in expr.values)
+    if isinstance(expr, ast.NamedExpr):
+        return _may_be_same_list(expr.value, names)
+    return False
+
+
+def rule_alias(ctx) -> RuleResult:
+    from ..cfg import forward
+
+    res = RuleResult(
+        "C05.ALIAS",
+        "C05",
+        "the children property returns self._children by reference, so the request of remove_children may be that very list: an "
+        "implementation that edits self._children in place neither iterates the request nor reads it afterwards unless it "
+        "took a snapshot of it first (rebinding self._children to a new list is safe)",
+        floor=3,
+    )
+    p = ctx.p
+    base = p.cls("EntityContainer")
+    impls = {}
+    for K in p.subclasses(base):
+        m = K.lookup("remove_children")
+        if m and m[1] == "method":
+            impls.setdefault(m[2], []).append(K)
+    if not impls:
+        raise AnalysisError("C05.ALIAS: no remove_children implementation found on the EntityContainer family")
+    for fn0, classes in sorted(impls.items(), key=lambda kv: kv[0].qualname):
+        # does any of the classes hand its list out by reference?
+        shared = []
+        for K in classes:
+            c = K.lookup("children")
+            if not c or c[1] != "prop" or c[2].getter is None:
+                continue
+            gv = sem_view(ctx, c[2].getter)
+            G = Fx(gv)
+            gs = gv.self_name
+            if any(isinstance(r, ast.Return) and r.value is not None and G.xt(r.value) in (f"{gs}._children",) for r in ast.walk(gv.node)):
+                shared.append(K.name)
+        fn = sem_view(ctx, fn0)
+        req = param(fn, 0)
+        sn = fn.self_name
+        if req is None or sn is None:
+            raise AnalysisError(f"C05.ALIAS: {fn0.qualname} has no request parameter")
+        F = Fx(fn)
+        g = F.g
+
+        def edits_in_place(n, F=F, sn=sn):
+            own = f"{sn}._children"
+            for c in F.calls(n):
+                if isinstance(c.func, ast.Attribute) and c.func.attr in ("remove", "pop", "clear") and F.xt(c.func.value) == own:
+                    return True
+            if n.kind == "stmt" and isinstance(n.ast, ast.Delete):
+                return any(isinstance(t, ast.Subscript) and F.xt(t.value) == own for t in n.ast.targets)
+            return False
+
+        edits = [n for n in g.nodes if edits_in_place(n)]
+        res.inst(f"{fn.qualname} (reached on {len(classes)} classes, list shared by {len(shared)}): {len(edits)} in-place edits of {sn}._children", nontrivial=True)
+        if not shared or not edits:
+            continue
+
+        # names that may still hold the caller's list (forward may-analysis; a copy / a new list ends it)
+        def transfer(n, st):
+            if n.kind == "stmt" and isinstance(n.ast, (ast.Assign, ast.AnnAssign)) and n.ast.value is not None:
+                out = set(st)
+                for t in (n.ast.targets if isinstance(n.ast, ast.Assign) else [n.ast.target]):
+                    if isinstance(t, ast.Name):
+                        (out.add if _may_be_same_list(n.ast.value, st) else out.discard)(t.id)
+                return frozenset(out)
+            return st
+
+        IN = forward(g, frozenset([req]), transfer, lambda a, b: a | b)
+
+        def reads(n, names):
+            if n.ast is None or isinstance(n.ast, list):
+                return False
+            roots = [it.context_expr for it in n.ast.items] if n.kind == "with" else [n.ast]
+            return any(isinstance(y, ast.Name) and isinstance(y.ctx, ast.Load) and y.id in names for r in roots for y in ast.walk(r))
+
+        after = F.reach([m for e in edits for m, _ in e.succ])
+        looped = [n for n in g.nodes if n.kind == "foriter" and n in IN and _may_be_same_list(n.ast, IN[n])
+                  and any(e in F.reach([m for m, _ in n.succ]) and n.succ and any(t in F.reach([m for m, _ in e.succ]) for t, _ in n.succ) for e in edits)]
+        ok1 = not looped
+        res.inst(f"{fn.qualname}: the loop that edits {sn}._children in place does not iterate the request itself", nontrivial=True, ok=ok1)
+        if not ok1:
+            res.find(fn.cls.name, fn.name, "request iterated while self._children is edited in place", f"{fn.module.relpath}:{looped[0].lineno}",
+                     f"x.remove_children(x.children) passes {sn}._children itself (the children property of {', '.join(shared[:3])} returns it by reference): "
+                     "removing from it while iterating skips every other child, half of the children stay listed and alive")
+        late = [n for n in after if n.kind not in ("foriter", "fornext") and n in IN and not edits_in_place(n) and reads(n, IN[n])
+                and not any(n is x for x in looped)]
+        ok2 = not late
+        res.inst(f"{fn.qualname}: the request is not read after {sn}._children was edited in place", nontrivial=True, ok=ok2)
+        if not ok2:
+            first = min(late, key=lambda n: n.lineno)
+            res.find(fn.cls.name, fn.name, "request read after self._children was edited in place", f"{fn.module.relpath}:{first.lineno}",
+                     f"when the request is {sn}._children itself it has lost the removed children by now: what is handed on / tested afterwards "
+                     "(the unlink on file) is what is left, not what was removed")
+    return res
+
+
+# --------------------------------------------------------------------------------------------------------------------------
+# C05.CHILDREF — "once the caller has dropped its own references ... no lookup still yields a removed entity": besides
+# _children, a container may remember ONE OF ITS CHILDREN in a field of its own (a getter that scans self.children and
+# keeps what it found).  That field is a second strong reference and a second way to reach the child: the
+# remove_children implementation reached on the class must write it (reset it) as well.
+def _child_memo_fields(ctx, K):
+    """{field: function} — fields `self.F` that some method / getter on K's MRO fills with an element of self.children:
+    `for c in self.children: ... self.F = c`, `self.F = next((c for c in self.children if ..), None)`, `self.F = [c for c in self.children if ..]`."""
+    out = {}
+    for C in K.mro:
+        if isinstance(C, str):
+            continue
+        fns = list(C.methods.values()) + [x for pr in C.props.values() for x in (pr.getter, pr.setter) if x]
+        for f0 in fns:
+            if f0.name in ("remove_children",) or not any(isinstance(n, ast.Attribute) and n.attr in ("children", "_children") for n in ast.walk(f0.node)):
+                continue
+            fn = sem_view(ctx, f0)
+            sn = fn.self_name
+            if sn is None:
+                continue
+            F = Fx(fn)
+
+            def own_children(e, F=F, sn=sn):
+                return any(isinstance(y, ast.Attribute) and y.attr in ("children", "_children") and unparse(y.value) == sn for y in ast.walk(F.x(e)))
+
+            def self_field(t, sn=sn):
+                return t.attr if isinstance(t, ast.Attribute) and unparse(t.value) == sn else None
+
+            for lp in ast.walk(fn.node):
+                if isinstance(lp, ast.For) and isinstance(lp.target, ast.Name) and own_children(lp.iter):
+                    for a in [x for s_ in lp.body for x in ast.walk(s_)]:
+                        if isinstance(a, ast.Assign) and isinstance(a.value, ast.Name) and a.value.id == lp.target.id:
+                            for t in a.targets:
+                                if self_field(t):
+                                    out.setdefault(self_field(t), f0)
+                if isinstance(lp, ast.Assign):
+                    v = lp.value
+                    if isinstance(v, ast.Call) and name_of(v.func) == "next" and v.args:
+                        v = v.args[0]
+                    if isinstance(v, (ast.GeneratorExp, ast.ListComp)) and len(v.generators) == 1 and isinstance(v.generators[0].target, ast.Name) \
+                            and isinstance(v.elt, ast.Name) and v.elt.id == v.generators[0].target.id and own_children(v.generators[0].iter):
+                        for t in lp.targets:
+                            if self_field(t) and self_field(t) not in ("_children",):
+                                out.setdefault(self_field(t), f0)
+    out.pop("_children", None)
+    return out
+
+
+def rule_childref(ctx) -> RuleResult:
+    res = RuleResult(
+        "C05.CHILDREF",
+        "C05",
+        "a field in which a container remembers one of its children (filled by scanning self.children) is written by the "
+        "remove_children implementation reached on that class: the removed child is not kept alive and reachable through it",
+        floor=1,
+    )
+    p = ctx.p
+    base = p.cls("EntityContainer")
+    seen = set()
+    for K in sorted(p.subclasses(base), key=lambda c: c.name):
+        m = K.lookup("remove_children")
+        if not m or m[1] != "method":
+            continue
+        memo = _child_memo_fields(ctx, K)
+        if not memo:
+            continue
+        impl = sem_view(ctx, m[2])
+        sn = impl.self_name
+        F = Fx(impl)
+        written = set()
+        for n in ast.walk(impl.node):
+            tgs = n.targets if isinstance(n, (ast.Assign, ast.Delete)) else [n.target] if isinstance(n, (ast.AnnAssign, ast.AugAssign)) else []
+            for t in tgs:
+                if isinstance(t, ast.Attribute) and F.xt(t.value) == sn:
+                    written.add(t.attr)
+                    # a property with a setter: what the setter stores
+                    pr = K.lookup(t.attr)
+                    if pr and pr[1] == "prop" and pr[2].setter is not None:
+                        sv = pr[2].setter
+                        written |= {y.attr for a in ast.walk(sv.node) if isinstance(a, (ast.Assign, ast.AnnAssign))
+                                    for y in (a.targets if isinstance(a, ast.Assign) else [a.target]) if isinstance(y, ast.Attribute) and unparse(y.value) == sv.self_name}
+            if isinstance(n, ast.Call) and name_of(n.func) in ("setattr", "delattr") and len(n.args) >= 2 and isinstance(n.args[1], ast.Constant) and F.xt(n.args[0]) == sn:
+                written.add(n.args[1].value)
+        for field, src in sorted(memo.items()):
+            key = (m[2], field)
+            ok = field in written
+            if key in seen:
+                continue
+            seen.add(key)
+            res.inst(f"{m[2].qualname}: resets {sn}.{field} (filled from the children by {src.qualname})", nontrivial=True, ok=ok)
+            if not ok:
+                res.find(m[2].cls.name, "remove_children", f"field {field} keeps a removed child", m[2].where,
+                         f"{src.qualname} remembers a child in {sn}.{field}; {m[2].qualname} removes children without ever writing that field: after "
+                         "the removal the object still holds and returns the removed child, and the workspace still finds it by uid")
+    return res
+
+
+# --------------------------------------------------------------------------------------------------------------------------
+# C05.DEFERRED — removal through the parent only unlinks the child; the node in the flat container is deleted later, by the
+# sweep of the workspace's weak tables (Workspace.remove_none_referents: dead key -> writer removal).  Two necessary
+# conditions of "deletes it from the file": (1) the sweep of every entity table runs before a writable file is closed,
+# (2) nothing else forgets a dead key of such a table (the sweep could no longer find the node to delete).
+def _sweep_calls(ctx, f0):
+    """[(table attribute, container | None)] of the sweeps `<self>.remove_none_referents(<self>.<table>, "<container>")` a function
+    makes, on its view (a helper that forwards the table and the container is expanded; aliases undone)."""
+    if not any(isinstance(c, ast.Call) and name_of(c.func) not in (None,) for c in ast.walk(f0.node)):
+        return []
+    fn = sem_view(ctx, f0)
+    if not any(isinstance(c, ast.Call) and name_of(c.func) == "remove_none_referents" for c in ast.walk(fn.node)):
+        return []
+    sn = fn.self_name
+    F = Fx(fn)
+    out = []
+    for c in ast.walk(fn.node):
+        if isinstance(c, ast.Call) and name_of(c.func) == "remove_none_referents" and c.args:
+            a = F.x(c.args[0])
+            k = F.x(c.args[1]) if len(c.args) > 1 else next((F.x(kw.value) for kw in c.keywords if kw.arg == "rtype"), None)
+            if isinstance(a, ast.Attribute) and unparse(a.value) == sn:
+                out.append((a.attr, k.value if isinstance(k, ast.Constant) else None))
+    return out
+
+
+def _swept_tables(ctx, ws):
+    """{table attribute: container} of the workspace's sweeps, for the flat entity containers."""
+    out = {}
+    for f0 in list(ws.methods.values()) + [pr.getter for pr in ws.props.values() if pr.getter]:
+        if f0.name == "remove_none_referents":
+            continue
+        for t, cont in _sweep_calls(ctx, f0):
+            if cont in ("Data", "Groups", "Objects"):
+                out[t] = cont
+    return out
+
+
+def _assume(expr, value_of):
+    """three-valued value of a test whose atoms are valued by `value_of` (True / False / None = unknown)"""
+    v = value_of(expr)
+    if v is not None:
+        return v
+    if isinstance(expr, ast.Constant):
+        return bool(expr.value)
+    if isinstance(expr, ast.UnaryOp) and isinstance(expr.op, ast.Not):
+        v = _assume(expr.operand, value_of)
+        return None if v is None else not v
+    if isinstance(expr, ast.BoolOp):
+        vals = [_assume(v, value_of) for v in expr.values]
+        if isinstance(expr.op, ast.And):
+            return False if any(v is False for v in vals) else (True if all(v is True for v in vals) else None)
+        return True if any(v is True for v in vals) else (False if all(v is False for v in vals) else None)
+    return None
+
+
+def _writable_mode(e):
+    """value of a comparison of the file handle's `.mode` with constants, for a file opened writable ('r+' / 'a'): True / False,
+    None when it is not such a comparison or the two writable modes disagree"""
+    if not (isinstance(e, ast.Compare) and len(e.ops) == 1 and isinstance(e.left, ast.Attribute) and e.left.attr == "mode"):
+        return None
+    rhs = e.comparators[0]
+    if isinstance(rhs, ast.Constant):
+        consts = [rhs.value]
+    elif isinstance(rhs, (ast.List, ast.Tuple, ast.Set)) and all(isinstance(x, ast.Constant) for x in rhs.elts):
+        consts = [x.value for x in rhs.elts]
+    else:
+        return None
+    vals = set()
+    for mode in ("r+", "a"):
+        op = e.ops[0]
+        if isinstance(op, (ast.In, ast.NotIn)):
+            v = mode in consts
+            vals.add(v if isinstance(op, ast.In) else not v)
+        elif isinstance(op, (ast.Eq, ast.NotEq)) and isinstance(rhs, ast.Constant):
+            v = mode == rhs.value
+            vals.add(v if isinstance(op, ast.Eq) else not v)
+        else:
+            return None
+    return vals.pop() if len(vals) == 1 else None
+
+
+def rule_deferred(ctx) -> RuleResult:
+    res = RuleResult(
+        "C05.DEFERRED",
+        "C05",
+        "the deletion of an unlinked entity's node is left to the sweep of the workspace's weak tables: Workspace.close sweeps "
+        "every entity table on the writable path before the file handle is closed, and no other function forgets a dead key of a "
+        "swept table without asking the writer to delete the node",
+        floor=4,
+    )
+    p = ctx.p
+    ws = p.cls("Workspace")
+    tables = _swept_tables(ctx, ws)
+    if not tables:
+        raise AnalysisError("C05.DEFERRED: no sweep of an entity table found on Workspace")
+    # (0) the registry each kind of entity is kept in (Workspace.register: insert_once(self.<table>, ..) on the paths of that kind) is a swept table
+    expect = {"Data": "Data", "Group": "Groups", "ObjectBase": "Objects"}
+    regs = [f0 for f0 in ws.methods.values() if any(isinstance(c, ast.Call) and name_of(c.func) == "insert_once" for c in ast.walk(f0.node))]
+    for f0 in regs:
+        rv = sem_view(ctx, f0)
+        R = Fx(rv)
+        ev = param(rv, 0)
+        rs = rv.self_name
+        if ev is None:
+            continue
+        for kname, cont in expect.items():
+            seen_ = R.reach([R.g.entry], ev, KindFacts(p, p.cls(kname), excluded=[p.cls("EntityType")]))
+            regd = {a.attr for n in seen_ for c in R.calls(n) if name_of(c.func) == "insert_once" and c.args
+                    for a in [R.x(c.args[0])] if isinstance(a, ast.Attribute) and unparse(a.value) == rs}
+            for t in sorted(regd):
+                ok = tables.get(t) == cont
+                res.inst(f"{f0.qualname}: {kname} entities are kept in {rs}.{t}, swept into '{tables.get(t)}'", nontrivial=True, ok=ok)
+                if not ok:
+                    res.find("Workspace", f0.name, f"registry {t} of {kname} entities is not swept into '{cont}'", f0.where,
+                             f"{kname} entities are registered in {rs}.{t}; no sweep of the workspace deletes the dead entries of that table from '{cont}' "
+                             "(Workspace.remove_none_referents): an unlinked entity is never deleted from the file")
+    # (1) which tables a function sweeps, through the workspace's own methods and property getters
+    memo = {}
+
+    def sweeps(f0, depth=0):
+        if f0 in memo:
+            return memo[f0]
+        memo[f0] = set()
+        out = {t for t, _ in _sweep_calls(ctx, f0) if t in tables} if f0.name != "remove_none_referents" else set()
+        sn = f0.self_name
+        for n in ast.walk(f0.node):
+            if isinstance(n, ast.Attribute) and sn is not None and unparse(n.value) == sn and depth < 3:
+                m = ws.lookup(n.attr)
+                if m and m[1] == "method" and m[2] is not f0 and m[2].name not in ("remove_none_referents", "close"):
+                    out |= sweeps(m[2], depth + 1)
+                elif m and m[1] == "prop" and m[2].getter is not None:
+                    out |= sweeps(m[2].getter, depth + 1)
+        memo[f0] = out
+        return out
+
+    fn = sem_view(ctx, "Workspace.close")
+    sn = fn.self_name
+    F = Fx(fn)
+    g = F.g
+    closes = [n for n in g.nodes if F.has_call(n, lambda c: isinstance(c.func, ast.Attribute) and c.func.attr == "close" and not c.args
+                                               and F.xt(c.func.value) in (f"{sn}.geoh5", f"{sn}._geoh5"))]
+    if not closes:
+        raise AnalysisError("C05.DEFERRED: Workspace.close: the call that closes the file handle was not found")
+
+    def node_sweeps(n):
+        out = set()
+        if n.ast is None or isinstance(n.ast, list):
+            return out
+        roots = [it.context_expr for it in n.ast.items] if n.kind == "with" else [n.ast]
+        for r in roots:
+            for y in ast.walk(r):
+                if isinstance(y, ast.Call) and name_of(y.func) == "remove_none_referents" and y.args:
+                    a = F.x(y.args[0])
+                    if isinstance(a, ast.Attribute) and unparse(a.value) == sn and a.attr in tables:
+                        out.add(a.attr)
+                if isinstance(y, ast.Attribute) and unparse(y.value) == sn:
+                    m = ws.lookup(y.attr)
+                    if m and m[1] == "method" and m[2].name not in ("remove_none_referents", "close"):
+                        out |= sweeps(m[2])
+                    elif m and m[1] == "prop" and m[2].getter is not None:
+                        out |= sweeps(m[2].getter)
+        return out
+
+    per_node = {n: node_sweeps(n) for n in g.nodes}
+
+    def reach_writable(avoid):
+        seen, stack = set(), [g.entry]
+        while stack:
+            n = stack.pop()
+            if n in seen or avoid(n):
+                continue
+            seen.add(n)
+            succ = n.succ
+            if n.kind == "test":
+                v = _assume(F.test(n), _writable_mode)
+                if v is not None:
+                    succ = [(m, l) for m, l in n.succ if l != ("false" if v else "true")]
+            stack.extend(m for m, _ in succ)
+        return seen
+
+    for t, cont in sorted(tables.items()):
+        open_ = reach_writable(lambda n, t=t: t in per_node[n])
+        ok = not any(c in open_ for c in closes)
+        res.inst(f"Workspace.close: {sn}.{t} ('{cont}') swept on the writable path before the file is closed", nontrivial=True, ok=ok)
+        if not ok:
+            res.find("Workspace", "close", f"table {t} not swept before a writable file is closed", fn.where,
+                     f"an entity unlinked from its parent (parent.remove_children) and dropped by the caller is deleted from '{cont}' only by the sweep of "
+                     f"{sn}.{t}; close() reaches the closing of the file without it: the node stays in the file and is found by uid after re-opening")
+    # (2) dead keys of a swept table forgotten elsewhere
+    for f0 in list(ws.methods.values()) + [x for pr in ws.props.values() for x in (pr.getter, pr.setter) if x]:
+        if f0.name == "remove_none_referents":
+            continue
+        s0 = f0.self_name
+        for c in ast.walk(f0.node):
+            if not isinstance(c, ast.Call):
+                continue
+            hits = [(i, a.attr) for i, a in enumerate(c.args) if isinstance(a, ast.Attribute) and unparse(a.value) == s0 and a.attr in tables]
+            if not hits:
+                continue
+            r = p.resolve_expr(f0.module, c.func) if isinstance(c.func, (ast.Name, ast.Attribute)) else None
+            target = r[1] if r and r[0] == "func" else None
+            if target is None and isinstance(c.func, ast.Attribute) and unparse(c.func.value) == s0:
+                m = ws.lookup(c.func.attr)
+                target = m[2] if m and m[1] == "method" else None
+            if target is None or target.name == "remove_none_referents" and target.cls is ws:
+                continue
+            ps = target.params[1:] if target.kind in ("method", "classmethod") else target.params
+            for i, t in hits:
+                if i >= len(ps):
+                    continue
+                q = ps[i]
+                drops = any((isinstance(n, ast.Delete) and any(isinstance(x, ast.Subscript) and unparse(x.value) == q for x in n.targets))
+                            or (isinstance(n, ast.Call) and isinstance(n.func, ast.Attribute) and n.func.attr in ("pop", "popitem", "clear") and unparse(n.func.value) == q)
+                            for n in ast.walk(target.node))
+                deletes_node = any(isinstance(n, ast.Call) and _file_removal_container(n) is not None for n in ast.walk(target.node))
+                ok = not drops or deletes_node
+                res.inst(f"{f0.qualname}: {target.qualname}({s0}.{t}) {'forgets keys' if drops else 'keeps the keys'}", nontrivial=True, ok=ok)
+                if not ok:
+                    res.find("Workspace", f0.prop or f0.name, f"{target.name} forgets dead keys of {t} without deleting their node", f"{f0.module.relpath}:{c.lineno}",
+                             f"{target.qualname} deletes the key of a dead reference from {s0}.{t}; the node of that entity in '{tables[t]}' is deleted only by the sweep "
+                             "(Workspace.remove_none_referents), which can no longer see it: a lookup of a removed entity keeps its node on file for good")
+    return res
+
+
+RULES = [rule_guard, rule_itermut, rule_sibling, rule_scrub, rule_file, rule_oneshot, rule_concat, rule_sweep, rule_alias, rule_childref, rule_deferred]
